@@ -2,6 +2,7 @@
 chunkings, relay it through pgcat, compare bytes in both directions."""
 import os
 import random
+import socket
 import struct
 import time
 
@@ -55,12 +56,14 @@ def body_of(kind, size, rng):
     return W.msg(kind.encode(), body)
 
 
-def concretise(rng, stream):
+def concretise(rng, stream, flood=False):
     """[[kind, abstract size]] -> list of (kind, bytes)"""
     out = []
     for kind, size in stream:
         if kind in ('D', 'd'):
-            if size >= 8196:
+            if size >= 8196 and flood:
+                real = rng.choice([9000000, 12000000])     # more than the sockets on the way take while nobody reads
+            elif size >= 8196:
                 real = rng.choice(BIG_SIZES)
             else:
                 real = rng.choice([12, 20, 60, 200, 1000, 3000, 4100] + (NEAR if rng.random() < 0.2 else []))
@@ -78,7 +81,7 @@ def concretise(rng, stream):
 def run_relay(item):
     """item: {'id', 'stream': [[k, sz]...], 'seed', 'tls': bool, 'mode': 'transaction'|'session'}"""
     rng = random.Random(item['seed'])
-    msgs = concretise(rng, item['stream'])
+    msgs = concretise(rng, item['stream'], bool(item.get('flood')))
     kinds = [k for k, _ in msgs]
     extended = any(k in '123tns' for k in kinds)
     # segments end at each CopyInResponse
@@ -132,12 +135,20 @@ def run_relay(item):
                 pass
         else:
             sent = W.Q('SELECT scripted ' + c.tag())
+        if item.get('flood'):
+            # the client is slow: a small receive buffer, and it starts reading late - the pooler's writes meet a full socket
+            try:
+                c.sock.setsockopt(socket.SOL_SOCKET, socket.SO_RCVBUF, 32768)
+            except OSError:
+                pass
         c.send(sent)
+        if item.get('flood'):
+            time.sleep(1.2)
         got = b''
         sent_copy = b''
         why = ''
-        deadline = time.time() + 8.0
-        c.sock.settimeout(4.0)
+        deadline = time.time() + (8.0 if not item.get('flood') else 30.0)
+        c.sock.settimeout(4.0 if not item.get('flood') else 10.0)
         done = False
         nseg = 0
         try:
